@@ -525,6 +525,7 @@ fn scenario<H: ArchH>(rep: &mut Report, p: &mut Prng, arch: Arch, id: u64) {
                 });
             }
             crate::hist::fresh_cache_twin(rep, &w, &o, &ans, || format!("{}\n{line}", lines.join("\n")));
+            crate::hist::step_oracles(rep, &o, &obs, &ans, || format!("{}\n{line}", lines.join("\n")));
             lines.push(line);
             cmds.push(cmd);
             impl_outs.push(ans.clone());
@@ -930,6 +931,7 @@ fn random_history<H: ArchH>(rep: &mut Report, p: &mut Prng, arch: Arch, id: u64)
         // frame" premise of the property cannot be guaranteed there)
         if !with_iter {
             crate::hist::fresh_cache_twin(rep, w, &o, &ans, || format!("{}\n{line}", lines.join("\n")));
+            crate::hist::step_oracles(rep, &o, &obs, &ans, || format!("{}\n{line}", lines.join("\n")));
         }
         // C04: a first frame at an address of the module that `__unwind_info` does not cover
         // (before the first entry / at or after the end marker) and that is not in a stub
